@@ -1,2 +1,3 @@
 -- Property theorems, one module per property id.
 import Props.C14
+import Props.C17
